@@ -170,7 +170,9 @@ func runC04Case(run *ev.Run, cs c04Case) {
 					continue
 				}
 				for _, g := range goroutineDump() {
-					if g.State == "sleep" && strings.Contains(g.Frames, "lib.(*Attacker).Attack.func1") {
+					// the loop's own frame ("...Attack.func1()"), not the "created by ...Attack.func1" footer that
+					// every on-demand worker carries (a worker may well sleep inside the transport seam)
+					if g.State == "sleep" && strings.Contains(g.Frames, "lib.(*Attacker).Attack.func1()") {
 						sleptAfterStop.Add(1)
 					}
 				}
